@@ -163,6 +163,7 @@ type Contract struct {
 	Props    []string
 	Requires []*Clause
 	Ensures  []*Clause
+	Defines  *Expr     // result of this pure, deterministic function is denoted by this spec application
 	MayPanic []*Clause // E may be nil (unconditional)
 	Assigns  []string
 	Loops    map[int]*LoopSpec
@@ -906,7 +907,7 @@ var clauseKeywords = map[string]bool{
 	"maypanic": true, "assigns": true, "loop": true, "inline": true, "trusted": true,
 	"pure": true, "type": true, "spec": true, "unfold": true, "axiom": true, "extern": true,
 	"iface": true, "lemma": true, "let": true, "assert": true, "assume": true, "level": true,
-	"package": true, "nobody": true, "call": true,
+	"package": true, "nobody": true, "call": true, "defines": true,
 }
 
 type rawClause struct {
@@ -1069,6 +1070,12 @@ func ParseSpecText(text, path string, goFile bool) (*SpecFile, error) {
 			if err := addClause(&cur.MayPanic, "maypanic", rc2); err != nil {
 				return nil, err
 			}
+		case "defines":
+			e, err := parseExprString(rc.text, path, rc.line)
+			if err != nil {
+				return nil, err
+			}
+			cur.Defines = e
 		case "assigns":
 			cur.Assigns = append(cur.Assigns, strings.TrimSpace(rc.text))
 		case "inline":
